@@ -6,7 +6,7 @@ from . import core
 
 
 def obs_runs(res, pid, plans, props, wd, tag, nontrivial=None, detail=0, panic_is_violation=True,
-             cls_of=None, par=8):
+             cls_of=None, par=8, batch=1, nontrivial_stat=None):
     """impl -> spec: run every plan on the real sessions, validate the trace with the TLA+ monitor
     (spec/Trace_Obs.tla) and collect the violations of the properties in `props`.
 
@@ -14,24 +14,28 @@ def obs_runs(res, pid, plans, props, wd, tag, nontrivial=None, detail=0, panic_i
     cls_of(plan) -> scenario class label used to match known findings."""
     core.build()
     jobs = []
-    for i, plan in enumerate(plans):
-        jobs.append((i, plan, os.path.join(wd, "%s_%03d.ndjson" % (tag, i))))
+    groups = core.chunks(plans, batch)
+    for i, grp in enumerate(groups):
+        jobs.append((i, grp, os.path.join(wd, "%s_%03d.ndjson" % (tag, i))))
 
     def one(job):
-        i, plan, path = job
-        core.drive([plan], path, detail=detail)
+        i, grp, path = job
+        core.drive(grp, path, detail=detail)
         r = core.validate_trace(path, os.path.join(wd, "md_%s_%03d" % (tag, i)))
-        return (i, plan, path, r)
+        return (i, grp, path, r)
 
     outs = core.parallel(one, jobs, n=par)
-    for i, plan, path, r in outs:
-        res.traces += 1
-        res.evaluations += 1
+    for i, grp, path, r in outs:
+        plan = grp[0]
+        res.traces += len(grp)
+        res.evaluations += len(grp)
         res.states += r["states"]
         res.transitions += r["transitions"]
         st = r["stats"]
-        if nontrivial is None or nontrivial(st, plan):
-            res.nontrivial += 1
+        if nontrivial_stat is not None:
+            res.nontrivial += min(len(grp), st.get(nontrivial_stat, 0))
+        elif nontrivial is None or nontrivial(st, plan):
+            res.nontrivial += len(grp)
         if i < 2:
             res.add_sample({"family": tag, "cfg": plan.get("cfg"), "frames": plan.get("frames"),
                             "loss": plan.get("loss"), "stats": st})
@@ -56,7 +60,7 @@ def obs_runs(res, pid, plans, props, wd, tag, nontrivial=None, detail=0, panic_i
             replay = core.save_replay(pid, path, run, "%s_%03d_s%d" % (tag, i, res.seed))
             res.violations.append({
                 "prop": prop, "code": code, "line": n, "detail": det, "family": tag,
-                "cls": cls_of(plan) if cls_of else tag, "replay": replay,
+                "cls": cls_of(grp[min(run, len(grp)) - 1]) if cls_of else tag, "replay": replay,
             })
         if not r["viol"]:
             try:
@@ -327,3 +331,55 @@ def confirm_on_impl(res, pid, wd, tag, sched, props, cls=None):
         core.log("[%s] model counterexample (%s) did not reproduce on the implementation: "
                  "the model deviates from the code" % (pid, tag))
     return hit
+
+
+def mc_generic(res, wd, name, module, consts, invariants=(), props=(), workers=8, timeout=900,
+               overrides=None, expect_violation=False):
+    """Run a component model (module with its own Spec).  Returns (held, out).
+    expect_violation: a regression/non-vacuity run that MUST find the documented counterexample."""
+    cfgp = os.path.join(wd, "mc_%s.cfg" % name)
+    lines = ["SPECIFICATION Spec", "CONSTANTS"]
+    for k, v in consts.items():
+        lines.append("  %s = %s" % (k, v))
+    for k, v in (overrides or {}).items():
+        lines.append("  %s <- %s" % (k, v))
+    if invariants:
+        lines.append("INVARIANTS " + " ".join(invariants))
+    if props:
+        lines.append("PROPERTIES " + " ".join(props))
+    lines.append("CHECK_DEADLOCK FALSE")
+    with open(cfgp, "w") as f:
+        f.write("\n".join(lines) + "\n")
+    rc, out = core.tlc(os.path.join(core.SPEC, module), cfgp, os.path.join(wd, "md_mc_" + name),
+                       workers=workers, timeout=timeout, xmx="10g")
+    gen, dist = core.parse_tlc_stats(out)
+    violated = ("is violated" in out) or ("was violated" in out)
+    if rc != 0 and not violated:
+        raise core.ToolError("TLC failed on %s/%s rc=%d:\n%s" % (module, name, rc, out[-3000:]))
+    if not violated and "Model checking completed" not in out:
+        raise core.ToolError("TLC did not complete %s/%s:\n%s" % (module, name, out[-2000:]))
+    res.add_model("%s/%s" % (module.replace(".tla", ""), name), gen, dist,
+                  {"constants": consts, "overrides": overrides or {}, "violated": violated,
+                   "expected_violation": expect_violation, "exhaustive": True,
+                   "checked": list(invariants) + list(props)})
+    if expect_violation and not violated:
+        raise core.ToolError("regression model run %s no longer finds its documented counterexample "
+                             "(vacuity guard)" % name)
+    return (not violated), out
+
+
+def fault_plans(wd, nlinks, m, k, delays, timeout=300):
+    """TLC enumerates the bounded-exhaustive fault space (spec/FaultPlan.tla)."""
+    import re
+    cfgp = os.path.join(wd, "faultplan.cfg")
+    with open(cfgp, "w") as f:
+        f.write("CONSTANTS\n  NLinks = %d\n  M = %d\n  K = %d\n  Delays = {%s}\n" %
+                (nlinks, m, k, ", ".join(str(d) for d in delays)))
+    rc, out = core.tlc(os.path.join(core.SPEC, "FaultPlan.tla"), cfgp, os.path.join(wd, "md_fp"), timeout=timeout)
+    plans = []
+    for mm in re.finditer(r'<<"PLAN", "(.*)">>', out):
+        plans.append(json.loads(mm.group(1).encode().decode("unicode_escape")))
+    mm = re.search(r'<<"PLANS", (\d+)>>', out)
+    if not mm or int(mm.group(1)) != len(plans):
+        raise core.ToolError("fault plan enumeration failed: %s" % out[-1500:])
+    return plans
